@@ -400,6 +400,10 @@ class C18:
             if not self._meta_kept(ex, ev, src, out, 'normalize'):
                 return
             nel = sv.size
+            mx = ex.stats.setdefault('maxerr', {})
+            mx['normalize_mean/tol'] = max(
+                mx.get('normalize_mean/tol', 0.0),
+                abs(ov.mean() - 1.0) / (16 * EPS * max(1, np.log2(nel))))
             if abs(ov.mean() - 1.0) > 16 * EPS * max(1, np.log2(nel)):
                 ex.add(violation('C18.normalize', ev['id'],
                                  'mean of normalised image is 1%+.3g'
@@ -432,6 +436,11 @@ class C18:
                                      sig='C18.bg_correct:self'))
                 return
             ref = (sv - dv) / (bv - dv)
+            mx = ex.stats.setdefault('maxerr', {})
+            if ov.shape == ref.shape:
+                mx['bg_correct/tol'] = max(
+                    mx.get('bg_correct/tol', 0.0),
+                    O.maxerr(ov, ref) / (8 * EPS * np.max(np.abs(ref))))
             if ov.shape != ref.shape or \
                     O.maxerr(ov, ref) > 8 * EPS * np.max(np.abs(ref)):
                 ex.add(violation('C18.bg_correct', ev['id'],
@@ -490,6 +499,12 @@ class C18:
                             scale = (abs(pl[0]) + abs(pl[1]) * sv.shape[-2] +
                                      abs(pl[2]) * sv.shape[-1] +
                                      np.max(np.abs(sv)))
+                            mx = ex.stats.setdefault('maxerr', {})
+                            if bv.shape == ov.shape:
+                                mx['detrend/tol'] = max(
+                                    mx.get('detrend/tol', 0.0),
+                                    O.maxerr(ov, bv) / (256 * EPS * scale *
+                                                        max(sv.shape)))
                             if bv.shape == ov.shape and O.maxerr(ov, bv) > \
                                     256 * EPS * scale * max(sv.shape):
                                 ex.add(violation(
